@@ -7,6 +7,10 @@ sequence / picture level signal that enables the tool.
             dependent on the switch (least fixpoint over fields: caches such as last_i_picture_sc_detection, first-level signals
             such as seq_header.cdef_level), or because every call site of the enclosing function is itself control-dependent on
             the switch.  A store that fails is a place where a preset / tuning decision overrides what the user asked for.
+  C20.OFF   polarity: under the assumption static_config.<switch> == <the value that disables the tool>, conditional constant
+            propagation over every function that stores the signal (branches decided by the assumption are pruned, locals and
+            cache fields that become constant are followed, functions all of whose call sites are pruned are skipped) shows that
+            every store that can still execute writes the off value
   C20.ARG   call-argument signals (global motion): the level argument of every set_gm_controls call depends on the switch, and
             set_gm_controls is the only writer of GmControls.enabled
 """
@@ -17,8 +21,8 @@ from engine.reach import reaching
 PID = 'C20'
 
 META = {
-    'technique': 'dependence analysis (structured control dependence + value dependence, least fixpoint over type-resolved fields, call-site intersection) from each configuration switch to every store of the enabling signal; who-writes check for call-argument signals',
-    'text': 'Decides, for each user-visible tool switch (loop filter, CDEF, restoration, palette / screen content, intra block copy, global motion, warped motion, OBMC, filter intra, inter-intra compound, super-resolution, tile rows / columns), that no assignment of the sequence- or picture-level signal that turns the tool on is made without consulting the switch - on every path and for every preset, because it is a property of every store. It does not decide that block-level mode decision honours the picture-level signal nor what the entropy coder finally writes.',
+    'technique': 'conditional constant propagation under switch = off (per function, with call-site feasibility and cache-field resolution) + dependence analysis (structured control dependence + value dependence, least fixpoint over type-resolved fields, call-site intersection) from each configuration switch to every store of the enabling signal; who-writes check for call-argument signals',
+    'text': 'Decides, for each user-visible tool switch (loop filter, CDEF, restoration, palette / screen content, intra block copy, global motion, warped motion, OBMC, filter intra, inter-intra compound, super-resolution, tile rows / columns), that no assignment of the sequence- or picture-level signal that turns the tool on is made without consulting the switch - on every path and for every preset, because it is a property of every store. For the on/off tools it also decides the polarity: with the switch set to its disabling value every store that can still execute writes the off value (conditional constant propagation under that assumption). It does not decide that block-level mode decision honours the picture-level signal nor what the entropy coder finally writes.',
     'note': 'CONFIG = EbSvtAv1EncConfiguration (scs->static_config); a signal whose stores are all dependent becomes a source for the signals derived from it',
     'ref': 'DESIGN.md section 5 C20',
 }
@@ -316,6 +320,7 @@ def run(P, rep, tier):
     rep.ob('C20.ARG', 'GmControls.enabled/only-writer', writers == ['set_gm_controls'], P.fn('set_gm_controls').loc(),
            'GmControls.enabled is written by %s' % writers)
     rep.floor('C20.ARG', 2)
+    run_off(P, rep, C, live, stores, csites)
 
 
 def _local_dep_gm(P, C, f, name, field_dep):
@@ -341,3 +346,252 @@ def _local_dep_gm(P, C, f, name, field_dep):
         if not ok:
             return False
     return True
+
+
+# ------------------------------------------------------------------------------------------------------------------------
+# C20.OFF - the tool really is off when the user says off: conditional constant propagation under the assumption
+# `static_config.<switch> == <off value>` over every function that stores the signal; on every path that stays feasible under
+# that assumption the stored value must evaluate to the off value.  This decides the polarity that C20.DEP cannot see
+# (e.g. `if (cfg.X == 1) s = cfg.X` depends on the switch but leaves the preset's value in place when the user says 0).
+
+OFF_TABLE = [
+    ('disable_dlf_flag', 1, [('PictureParentControlSet.loop_filter_mode', 0)]),
+    ('cdef_level', 0, [('SeqHeader.cdef_level', 0), ('PictureParentControlSet.cdef_level', 0)]),
+    ('enable_restoration_filtering', 0, [('SeqHeader.enable_restoration', 0)]),
+    ('palette_level', 0, [('PictureParentControlSet.palette_level', 0)]),
+    ('intrabc_mode', 0, [('FrameHeader.allow_intrabc', 0), ('PictureParentControlSet.ibc_mode', 0)]),
+    ('enable_warped_motion', 0, [('SeqHeader.enable_warped_motion', 0), ('FrameHeader.allow_warped_motion', 0)]),
+    ('obmc_level', 0, [('PictureParentControlSet.pic_obmc_level', 0)]),
+    ('filter_intra_level', 0, [('SeqHeader.filter_intra_level', 0), ('PictureControlSet.pic_filter_intra_level', 0)]),
+    ('inter_intra_compound', 0, [('SeqHeader.enable_interintra_compound', 0)]),
+    ('superres_mode', 0, [('PictureParentControlSet.frame_superres_enabled', 0), ('SeqHeader.enable_superres', 0)]),
+    ('screen_content_mode', 0, [('PictureParentControlSet.sc_content_detected', 0), ('FrameHeader.allow_screen_content_tools', 0)]),
+]
+
+UNK = None
+
+
+def _ev(e, env, loc):
+    """partial evaluation: int or None.  env: field id -> int ; loc: local name -> int"""
+    e = strip(e)
+    if e is None:
+        return UNK
+    k = e[0]
+    if k == 'l':
+        return e[1] if isinstance(e[1], int) else UNK
+    if k == 'm':
+        return env.get(e[1], UNK)
+    if k == 'v':
+        return loc.get(e[1], UNK) if e[2] not in ('g', 's') else UNK
+    if k == 'u':
+        v = _ev(e[2], env, loc)
+        if e[1] == '!':
+            return UNK if v is UNK else int(not v)
+        if e[1] == '-':
+            return UNK if v is UNK else -v
+        if e[1] == '+':
+            return v
+        return UNK
+    if k == 'b':
+        op = e[1]
+        a, b = _ev(e[2], env, loc), _ev(e[3], env, loc)
+        if op == '&&':
+            if a == 0 or b == 0:
+                return 0
+            return 1 if (a is not UNK and b is not UNK) else UNK
+        if op == '||':
+            if (a is not UNK and a != 0) or (b is not UNK and b != 0):
+                return 1
+            return 0 if (a == 0 and b == 0) else UNK
+        if a is UNK or b is UNK:
+            if op in ('*', '&') and (a == 0 or b == 0):
+                return 0
+            return UNK
+        try:
+            return {'==': lambda: int(a == b), '!=': lambda: int(a != b), '<': lambda: int(a < b), '<=': lambda: int(a <= b), '>': lambda: int(a > b),
+                    '>=': lambda: int(a >= b), '+': lambda: a + b, '-': lambda: a - b, '*': lambda: a * b, '&': lambda: a & b, '|': lambda: a | b,
+                    '>>': lambda: a >> b, '<<': lambda: a << b}[op]()
+        except Exception:
+            return UNK
+    if k == 'q':
+        c = _ev(e[1], env, loc)
+        if c is UNK:
+            x, y = _ev(e[2], env, loc), _ev(e[3], env, loc)
+            return x if (x is not UNK and x == y) else UNK
+        return _ev(e[2], env, loc) if c else _ev(e[3], env, loc)
+    return UNK
+
+
+def sccp(f, env):
+    """conditional constant propagation of locals under env; returns (in-states per feasible block, transfer)"""
+    def tr(ev, st):
+        e = ev.get('e')
+        if ev['k'] == 'decl':
+            d = dict(st)
+            v = _ev(e, env, d) if e is not None else UNK
+            if v is UNK:
+                d.pop(ev['n'], None)
+            else:
+                d[ev['n']] = v
+            return tuple(sorted(d.items()))
+        if ev['k'] == 'st' and e is not None and e[0] in ('a', 'u'):
+            t = strip(e[2])
+            if t is not None and t[0] == 'v' and t[2] not in ('g', 's'):
+                d = dict(st)
+                v = _ev(e[3], env, d) if (e[0] == 'a' and e[1] == '=') else UNK
+                if v is UNK:
+                    d.pop(t[1], None)
+                else:
+                    d[t[1]] = v
+                return tuple(sorted(d.items()))
+        elif ev['k'] == 'call' and e is not None:
+            # a local whose address is passed may be overwritten
+            d = dict(st)
+            ch = False
+            for a in e[2]:
+                a = strip(a)
+                if a and a[0] == 'u' and a[1] == '&' and strip(a[2]) and strip(a[2])[0] == 'v' and strip(a[2])[1] in d:
+                    d.pop(strip(a[2])[1]); ch = True
+            if ch:
+                return tuple(sorted(d.items()))
+        return st
+    ins = {f.entry: ()}
+    work = [f.entry]
+    seen_edges = set()
+    while work:
+        b = work.pop()
+        st = ins[b]
+        for ev in f.blocks[b]['ev']:
+            st = tr(ev, st)
+        blk = f.blocks[b]
+        succ = blk['succ']
+        c = blk.get('cond')
+        take = list(range(len(succ)))
+        if c is not None and len([s for s in succ if s is not None]) == 2:
+            v = _ev(c, env, dict(st))
+            if v is not UNK:
+                take = [0] if v else [1]
+        for i in take:
+            s = succ[i]
+            if s is None:
+                continue
+            if s not in ins:
+                ins[s] = st
+                work.append(s)
+            else:
+                old = dict(ins[s]); new = dict(st)
+                m = tuple(sorted((k, v) for k, v in old.items() if new.get(k, UNK) == v))
+                if m != ins[s]:
+                    ins[s] = m
+                    work.append(s)
+    return ins, tr
+
+
+def run_off(P, rep, C, live, stores, csites):
+    memo = {}
+    for sw, offv, sigs in OFF_TABLE:
+        env = {CFG + sw: offv}
+        proved = {}
+        cache = {}
+
+        def analysed(f):
+            if f.key not in cache:
+                cache[f.key] = sccp(f, env)
+            return cache[f.key]
+
+        def feasible_fn(f, depth=0):
+            """some call site of f is feasible under env (or f has no resolvable call site / is a thread entry)"""
+            key = ('feas', f.key)
+            if key in cache:
+                return cache[key]
+            cache[key] = True
+            sites = [(g, cev) for g, cev in csites.get(f.name, []) if f in P.resolve(f.name, g)]
+            if not sites or depth > 2:
+                return True
+            r = False
+            for g, cev in sites:
+                ins, tr = analysed(g)
+                if cev['b'] in ins and feasible_fn(g, depth + 1):
+                    r = True
+                    break
+            cache[key] = r
+            return r
+        def field_const(fld, guess, seen, depth=0):
+            """the value every feasible store of `fld` writes under the assumption (fields start zero-filled), or UNK"""
+            if fld in env:
+                return env[fld]
+            if fld in seen:
+                return guess                 # coinductive: judged by the other stores
+            if depth > 3 or fld.startswith(CFG):
+                return UNK
+            ss = stores.get(fld, [])
+            if not ss or len(ss) > 12:
+                return UNK
+            vals = set()
+            for g, sev in ss:
+                ins, tr = analysed(g)
+                if sev['b'] not in ins or not feasible_fn(g):
+                    continue
+                x = sev['e']
+                if x[0] != 'a' or x[1] != '=':
+                    return UNK
+                envx = dict(env)
+                for y in value_reads(x[3]):
+                    if y[0] == 'm' and y[1] not in envx:
+                        fv = field_const(y[1], guess, seen | {fld}, depth + 1)
+                        if fv is not UNK:
+                            envx[y[1]] = fv
+                v = _ev(x[3], envx, dict(g.state_at(ins, tr, sev) or ()))
+                if v is UNK:
+                    return UNK
+                vals.add(v)
+            vals.add(0)                      # zero-filled start value
+            return vals.pop() if len(vals) == 1 else UNK
+        changed = True
+        results = {}
+        rounds = 0
+        while changed and rounds < 4:
+            changed = False
+            rounds += 1
+            cache.clear()
+            env = dict({CFG + sw: offv}, **proved)
+            for sig, want in sigs:
+                res = []
+                for f, ev in stores.get(sig, []):
+                    ins, tr = analysed(f)
+                    if ev['b'] not in ins or not feasible_fn(f):
+                        res.append((f, ev, 'infeasible', None))
+                        continue
+                    st = f.state_at(ins, tr, ev)
+                    e = ev['e']
+                    v = _ev(e[3], env, dict(st or ())) if (e[0] == 'a' and e[1] == '=') else UNK
+                    if v is UNK and e[0] == 'a' and e[1] == '=':
+                        # the value may come through other fields (caches, derived signals): resolve those that are
+                        # themselves constant under the assumption (every feasible store of theirs evaluates to one value)
+                        env2 = dict(env)
+                        for x in value_reads(e[3]):
+                            if x[0] == 'm' and x[1] not in env2:
+                                fv = field_const(x[1], want, frozenset([sig]))
+                                if fv is not UNK:
+                                    env2[x[1]] = fv
+                        v = _ev(e[3], env2, dict(st or ()))
+                    # a copy of the same signal from another picture keeps its value
+                    if v is UNK and e[0] == 'a' and e[1] == '=' and strip(e[3])[0] == 'm' and strip(e[3])[1] == sig:
+                        v = want
+                    res.append((f, ev, 'ok' if v == want else 'bad', v))
+                results[sig] = res
+                if all(r[2] != 'bad' for r in res) and sig not in proved:
+                    proved[sig] = want
+                    changed = True
+        n = {}
+        for sig, want in sigs:
+            for f, ev, status, v in results.get(sig, []):
+                if status == 'infeasible':
+                    continue
+                k = (sig, f.name)
+                n[k] = n.get(k, 0) + 1
+                rep.ob('C20.OFF', '%s==%d|%s=%d/%s#%d' % (sig, want, sw, offv, f.name, n[k]), status == 'ok', f.loc(ev),
+                       ('with %s = %d this store writes %d' % (sw, offv, want)) if status == 'ok' else
+                       ('with %s = %d (tool disabled by the user) this store is reachable and writes %s instead of %d: %s' %
+                        (sw, offv, 'a value the switch does not determine' if v is UNK else v, want, pstr(strip(ev['e'][3]))[:60] if ev['e'][0] == 'a' else ev['e'][1])))
+    rep.floor('C20.OFF', 25)
